@@ -35,7 +35,7 @@ claimed = {
  "C06": ("E1", "§5.6", "pairwise equivalence of the AVX2 and AVX-512 stage-1 kernels on the same symbolic 64-byte block and carry-in state (inductive over blocks), and of the two slice drivers for 0-2 blocks and tails (quick: 6 tail lengths, thorough: all 64), incl. ndjson mode, error-mask hand-over and early exit",
           "one 64-byte block with arbitrary carry per subroutine; drivers <= 2 blocks + tail; rest of Parse is shared code; translator validation on every run; trusted: z3, llvm-objdump-14, the lifter"),
  "C11": ("E2", "§5.11", "Deserialize(Serialize(tape)) on every well-formed tape within the bound (NOP runs, strings in either buffer, equal/prefix-related/hash-colliding strings by the solver's choice): result well-formed (strict NOP runs) and read back identically by every traversal API incl. number tags and float flags; Serializer and destination fresh or with arbitrary havoc'd leftovers; noasm build: Deserialize SSA identical",
-          "tapes <= 7/9 words general, <= 10/12 words string-heavy; CompressNone arms only: S2/zstd are third-party code outside reach (contract dec(enc(x)) = x, TRUSTED); flush constants and string table scaled (stated in evidence); " + TRUST),
+          "tapes <= 7/8 words general, <= 10 words string-heavy, two-root tapes <= 6+6 words; CompressNone arms only: S2/zstd are third-party code outside reach (contract dec(enc(x)) = x, TRUSTED); flush constants and string table scaled (stated in evidence); " + TRUST),
  "C19": ("E2", "§5.19", "Deserialize on framed blobs with symbolic tag bytes, value words, message bytes, version/size bytes and block types (consistent framing or one deviation: size off by one/word, odd value bytes, strings block, truncation at every byte), fresh or havoc'd Serializer/destination: no panic, no hang; every accepted result traversed and marshalled without panic and with progress",
           "<= 3/4 tags, <= 2/3 value words, message <= 2 bytes, declared tape <= 6 words; block types 1/2 (S2/zstd payloads) are third-party decoders outside reach (assumed: error or fill, never panic); " + TRUST),
  "C02": ("E2", "§5.2", "reader side: every traversal API (Advance, AdvanceIter, AdvanceInto/PeekNextTag, ForEach, NextElementBytes, Root, Array, Object, typed accessors) "
